@@ -741,6 +741,25 @@ impl Gen {
                 let val = *self.rng.pick(&[59u64, 60, 900, 3600, 604_800, 604_801]);
                 self.vamm_cfg(h, r, v, |c| c.twap_interval = Some(val))
             }
+            13 if self.rng.chance(1, 4) => {
+                // the engine's insurance fund named in ONE message together with the (unchanged) owner, and named back in the
+                // very next transaction: every field an accepted update names takes effect, whatever else the message carries
+                let o = h.last.eng.owner.clone();
+                let cur = h.last.eng.insurance_fund.clone();
+                let other = h.w.insurance2.as_ref().map(|a| a.to_string()).unwrap_or_else(|| "guardian".to_string());
+                let with_owner = self.rng.chance(2, 3);
+                let upd = |owner: Option<String>, fund: String| eng::ExecuteMsg::UpdateConfig {
+                    owner,
+                    insurance_fund: Some(fund),
+                    fee_pool: None,
+                    initial_margin_ratio: None,
+                    maintenance_margin_ratio: None,
+                    partial_liquidation_ratio: None,
+                    liquidation_fee: None,
+                };
+                h.step(Op::Engine { sender: o.clone(), msg: upd(if with_owner { Some(o.clone()) } else { None }, other), funds: 0 }, r);
+                h.step(Op::Engine { sender: o.clone(), msg: upd(None, cur), funds: 0 }, r)
+            }
             13 if self.rng.chance(1, 2) => {
                 // re-point the fee pool (contract <-> plain account): fees must follow the configuration
                 let cur = h.last.eng.fee_pool.clone();
